@@ -238,3 +238,23 @@ package dockerlog
 //@   capture c = call(iter.Close, 0)
 //@   loop 0 modifies *
 //@   loop 0 body_ensures[closes-every-opened-log] c_called == (iter != nil)
+
+// ---- C02 / C04: the sequential part of SelectLogs. (The concurrent opening of several logs is
+// covered by the contracts of its two closures; errgroup itself is a dependency.)
+
+//@ scope dockerlog.go
+
+//@ func (*Querier).SelectLogs
+//@   capture fc = call(q.fetchContainers, 0)
+//@   capture ol = call(q.openLog, 0)
+//@   capture nm = call(newMergeIter, 0)
+//@   ensures[listing-error-surfaces] fc_called && same(fc_a1, params) && (fc_r1 != nil ==> ret1 != nil && ret0 == nil)
+//@   ensures[no-container-no-record-no-error] fc_r1 == nil && len(fc_r0) == 0 ==> ret1 == nil && typeis[*iterators.EmptyIterator[logstorage.Record]](ret0)
+//@   ensures[a-single-container-is-read-directly] fc_r1 == nil && len(fc_r0) == 1 ==> ol_called && same(ol_a1, fc_r0[0]) && ol_a2 == start && ol_a3 == end && same(ret1, ol_r1)
+//@   capture wt = call(grp.Wait, 0)
+//@   ensures[several-containers-are-merged] fc_r1 == nil && len(fc_r0) > 1 ==> wt_called && (wt_r0 != nil) == (ret1 != nil) && (ret1 == nil ==> nm_called && typeis[*mergeIter](ret0))
+
+//@ scope merge_iter.go
+//@ func newMergeIter
+//@   modifies nothing
+//@   ensures[merges-the-given-logs] typeis[*mergeIter](ret0) && same(as[*mergeIter](ret0).iters, iters) && !as[*mergeIter](ret0).initiazed && len(as[*mergeIter](ret0).heap) == 0
